@@ -51,6 +51,18 @@ void genC09(uint64_t seed, int tier, Scenario& sc) {
         int k = (int)r.below(100);
         if (k < 35) {
             if (r.chance(0.6)) { pg::anyPosition(r, gp); pushSend(sc, gp.positionCmd); }
+            if (r.chance(0.6)) {
+                // a burst of option changes right before the search: the protocol thread reads these options (and
+                // touches the hash table generation) when it prepares the search, the engine thread writes them
+                static const char* burst[] = {"setoption name Hash value 17", "setoption name Hash value 2", "setoption name Clear Hash", "ucinewgame",
+                                              "setoption name MultiPV value 2", "setoption name MultiPV value 1", "setoption name Threads value 3",
+                                              "setoption name Threads value 2", "setoption name OwnBook value true", "setoption name OwnBook value false",
+                                              "setoption name UCI_AnalyseMode value true", "setoption name UCI_AnalyseMode value false",
+                                              "setoption name Strength value 900", "setoption name Strength value 1000", "setoption name Contempt value 20",
+                                              "setoption name MaxNPS value 0", "setoption name MinProbeDepth value 2", "setoption name AnalysisAgeHash value false"};
+                int nb = (int)r.range(2, 4);
+                for (int b = 0; b < nb; b++) pushSend(sc, burst[r.below(sizeof(burst) / sizeof(burst[0]))]);
+            }
             bool nr;
             pushSend(sc, genGo(r, gp, cost, go, nr));
             if (nr) { genRelease(r, sc, cost, go.maxNodes); pushSend(sc, r.chance(0.3) ? "ponderhit" : "stop"); }
